@@ -69,6 +69,35 @@ var splitTemplates = map[int][][]cyc{
 	},
 }
 
+// coinTemplates[n]: cycles r, r+1, r+2 of the LONE-DECIDER episodes (patches/lab/ideal6.py): x = the round-r witness of role 0 gets
+// split votes at r+1, votes without a super-majority in any view at r+2 (mostly "no"), and at r+3 only the witness of the late
+// validator d of cycle r+2 strongly sees all n round-(r+2) witnesses: a super-majority of "no", it DECIDES x not famous; every other
+// round-(r+3) witness sees R = everybody but d: no super-majority, votes "no". d is silent from then on (its node keeps receiving,
+// nobody builds on its witness). The others go through x's coin round r+4 strongly seeing only "no" votes - the rule forces their vote
+// to "no" whatever the middle bit of their hash says (it says "yes" unless the middle byte is 0) - and decide "no" at r+5.
+var coinTemplates = map[int][][]cyc{
+	4: {
+		{{[]int{0}, []int{1, 2}}, {[]int{0}, []int{1, 2, 3}}, {[]int{1}, []int{0, 2, 3}}},
+		{{[]int{0}, []int{1, 2}}, {[]int{0}, []int{1, 2, 3}}, {[]int{3}, []int{0, 1, 2}}},
+		{{[]int{0}, []int{1, 2}}, {[]int{3}, []int{0, 1, 2}}, {[]int{0}, []int{1, 2, 3}}},
+		{{[]int{0}, []int{1, 2}}, {[]int{3}, []int{0, 1, 2}}, {[]int{1}, []int{0, 2, 3}}},
+	},
+	5: {
+		{{[]int{0}, []int{1, 2, 3}}, {[]int{1}, []int{0}}, {[]int{1}, []int{0, 2, 3, 4}}},
+		{{[]int{0}, []int{1, 2, 3}}, {[]int{1}, []int{0}}, {[]int{4}, []int{0, 1, 2, 3}}},
+		{{[]int{0}, []int{1, 2, 3}}, {[]int{1}, []int{2}}, {[]int{0}, []int{1, 2, 3, 4}}},
+		{{[]int{0}, []int{1, 2, 3}}, {[]int{1}, []int{2}}, {[]int{1}, []int{0, 2, 3, 4}}},
+	},
+	6: {
+		{{[]int{0}, []int{1, 2, 3}}, {[]int{0}, []int{1, 2, 3, 4, 5}}, {[]int{1}, []int{0, 2, 3, 4, 5}}},
+		{{[]int{0}, []int{1, 2, 3}}, {[]int{0}, []int{1, 2, 3, 4, 5}}, {[]int{5}, []int{0, 1, 2, 3, 4}}},
+	},
+	7: {
+		{{[]int{0}, []int{1, 2, 3}}, {[]int{0, 4}, []int{1, 2, 3, 5, 6}}, {[]int{1}, []int{0, 2, 3, 4, 5, 6}}},
+		{{[]int{0}, []int{1, 2, 3}}, {[]int{0, 4}, []int{1, 2, 3, 5, 6}}, {[]int{6}, []int{0, 1, 2, 3, 4, 5}}},
+	},
+}
+
 type splitCtl struct {
 	budget  int
 	used    int
@@ -204,10 +233,36 @@ func (h *hist) headRound(c *hx.Node) int { return h.storedRound(c, h.headEid(c))
 // to c), and the number of parent-round witnesses it would strongly see. Pure steering: the
 // coordinates are read from c's store, nothing is inserted.
 func (h *hist) predictRound(c *hx.Node, op int) (round int, strong int) {
+	la, pr, self := h.hypoCoords(c, op)
+	if pr < 0 {
+		return 0, 0
+	}
+	_, sm, ok := peerPubs(c, pr)
+	if !ok {
+		return pr, 0
+	}
+	strong = h.hypoStrong(c, la, self, pr)
+	if strong >= sm {
+		return pr + 1, strong
+	}
+	return pr, strong
+}
+
+// predictStrong: how many round-q witnesses the next event of c with other-parent op would strongly see
+func (h *hist) predictStrong(c *hx.Node, op int, q int) int {
+	la, pr, self := h.hypoCoords(c, op)
+	if pr < 0 {
+		return 0
+	}
+	return h.hypoStrong(c, la, self, q)
+}
+
+// hypoCoords: last-ancestor coordinates (index per creator) of the hypothetical next event of c with other-parent op
+func (h *hist) hypoCoords(c *hx.Node, op int) (la map[string]int, pr int, self string) {
 	w := h.w
 	sp := h.headEid(c)
-	la := map[string]int{}
-	pr := -1
+	la = map[string]int{}
+	pr = -1
 	for _, p := range []int{sp, op} {
 		if p < 0 {
 			continue
@@ -225,22 +280,23 @@ func (h *hist) predictRound(c *hx.Node, op int) (round int, strong int) {
 			pr = r
 		}
 	}
-	if pr < 0 {
-		return 0, 0
-	}
-	self := w.Peers[c.Self].PubKeyString()
+	self = w.Peers[c.Self].PubKeyString()
 	myIndex := 0
 	if sp >= 0 {
 		myIndex = w.EvByEid[sp].Index() + 1
 	}
 	la[self] = myIndex
-	pubs, sm, ok := peerPubs(c, pr)
+	return la, pr, self
+}
+
+func (h *hist) hypoStrong(c *hx.Node, la map[string]int, self string, q int) (strong int) {
+	pubs, sm, ok := peerPubs(c, q)
 	if !ok {
-		return pr, 0
+		return 0
 	}
-	ri, err := c.Store.GetRound(pr)
+	ri, err := c.Store.GetRound(q)
 	if err != nil {
-		return pr, 0
+		return 0
 	}
 	for _, x := range ri.Witnesses() {
 		we, err := c.Store.GetEvent(x)
@@ -269,10 +325,7 @@ func (h *hist) predictRound(c *hx.Node, op int) (round int, strong int) {
 			strong++
 		}
 	}
-	if strong >= sm {
-		return pr + 1, strong
-	}
-	return pr, strong
+	return strong
 }
 
 // ---- exact ancestry on the harness's own record of the DAG (eids grow from parents to children)
@@ -623,16 +676,27 @@ func (h *hist) splitCycle(sc *splitCtl, j int, L, E, fresh []*hx.Node) bool {
 		if m > 0 {
 			prev = H[m-1]
 		}
-		for i, e := range E {
-			if prev == nil {
-				for _, l := range L {
-					h.play(sc, e, h.headEid(l))
+		for _, e := range E {
+			if m == 0 {
+				// without helpers the early members are all in round j+1 already and one more lap would take them to
+				// j+2 (and the late validators with them, past the round they are meant to witness): they take the tips
+				// only with events that stay in round j+1
+				done := -1
+				if prev != nil {
+					done = h.guardedPlay(sc, e, h.headEid(prev), j+1)
+				}
+				if done < 0 {
+					for _, l := range L {
+						if h.guardedPlay(sc, e, h.headEid(l), j+1) >= 0 {
+							done = 0
+						}
+					}
+				}
+				if done < 0 {
+					continue
 				}
 			} else {
 				h.play(sc, e, h.headEid(prev))
-			}
-			if i == 0 && m == 0 {
-				// without helpers the first early member takes all the tips, the others follow it
 			}
 			prev = e
 			last = e
@@ -675,7 +739,38 @@ func (h *hist) splitCycle(sc *splitCtl, j int, L, E, fresh []*hx.Node) bool {
 	}
 	for _, l := range L {
 		for try := 0; try < 3 && h.headRound(l) < j+1; try++ {
-			h.play(sc, l, h.headEid(last))
+			// build on the head that puts the new event into round j+1 exactly (not beyond)
+			// and that strongly sees as many round-j witnesses as possible (all n is the aim)
+			op, best := h.headEid(last), -1
+			for _, c := range append([]*hx.Node{last}, minus(all, L, fresh, []*hx.Node{last})...) {
+				if !h.deliverX(l, h.headEid(c), false) {
+					continue
+				}
+				if r, _ := h.predictRound(l, h.headEid(c)); r == j+1 {
+					if st := h.predictStrong(l, h.headEid(c), j); st > best {
+						op, best = h.headEid(c), st
+					}
+				}
+			}
+			if best >= 0 && best < len(all) && try == 0 && m == 0 {
+				// its own round-j witness is not yet under events of enough creators: the early members that have
+				// not built on it do so now (staying in round j+1), then the choice is made again
+				for _, e := range E {
+					if !h.creatorsBetween(h.headEid(e), h.witnessOf(l, j))[e.Self] {
+						h.guardedPlay(sc, e, h.headEid(l), j+1)
+					}
+				}
+				for _, c := range minus(all, L, fresh) {
+					if h.deliverX(l, h.headEid(c), false) {
+						if r, _ := h.predictRound(l, h.headEid(c)); r == j+1 {
+							if st := h.predictStrong(l, h.headEid(c), j); st > best {
+								op, best = h.headEid(c), st
+							}
+						}
+					}
+				}
+			}
+			h.play(sc, l, op)
 			if h.headRound(l) < j+1 {
 				// not enough descendants of its own round-j witness yet: one more pass of R on top of it
 				for _, c := range minus(all, L, fresh) {
@@ -758,6 +853,10 @@ func (h *hist) splitEpisode(sc *splitCtl) bool {
 		return false
 	}
 	tpl := tpls[rng.Intn(len(tpls))]
+	coin := false
+	if ct := coinTemplates[n]; len(ct) > 0 && (rng.Intn(3) == 0 || os.Getenv("VERIF_COINTPL") != "") {
+		tpl, coin = ct[rng.Intn(len(ct))], true
+	}
 	perm := rng.Perm(n)
 	role := func(rs []int) []*hx.Node {
 		out := []*hx.Node{}
@@ -849,6 +948,9 @@ func (h *hist) splitEpisode(sc *splitCtl) bool {
 			fmt.Fprintf(os.Stderr, "  after cycle %d: votes on x at round %d (by creator): %v\n", r+ci, r+1, h.votesOn(ref, xs[0], r+1))
 		}
 	}
+	if coin {
+		h.coinTail(sc, r, xs[0], role(tpl[len(tpl)-1].L))
+	}
 	// finish: everybody gossips with everybody until x is decided at the slow validator's node (bounded)
 	for t := 0; t < 8*n; t++ {
 		ref := L0[0]
@@ -859,6 +961,57 @@ func (h *hist) splitEpisode(sc *splitCtl) bool {
 		h.randomGossip(sc, all, 1)
 	}
 	return true
+}
+
+func (h *hist) fameOf(a *hx.Node, r, x int) (decided, famous bool) {
+	ri, err := a.Store.GetRound(r)
+	if err != nil {
+		return false, false
+	}
+	hexx := h.w.EvByEid[x].Hex()
+	if !ri.IsDecided(hexx) {
+		return false, false
+	}
+	for _, f := range ri.FamousWitnesses() {
+		if f == hexx {
+			return true, true
+		}
+	}
+	return true, false
+}
+
+// coinTail: second half of a lone-decider episode (see coinTemplates). d = the lone deciders: they are silent from now on, their
+// nodes keep receiving; nobody receives anything from them until the others have decided x at distance 5 or later.
+func (h *hist) coinTail(sc *splitCtl, r, x int, d []*hx.Node) {
+	all := h.nodes[:h.cfg.n]
+	rest := minus(all, d)
+	h.actions["coin-template-episodes"]++
+	dd, df := h.fameOf(d[0], r, x)
+	od, _ := h.fameOf(rest[0], r, x)
+	if dd && !df && !od {
+		h.actions["coin-template-lone-decider"]++
+	} else if sc.debug {
+		fmt.Fprintf(os.Stderr, "  coin template: lone decider not reached (decided at d=%v famous=%v, decided elsewhere=%v) d=%d\n", dd, df, od, d[0].Self)
+		tr := []string{}
+		h.voteTrace = &tr
+		if xe, err := d[0].Store.GetEvent(h.w.EvByEid[x].Hex()); err == nil {
+			h.fameDistance(d[0], r, xe)
+		}
+		h.voteTrace = nil
+		for _, l := range tr {
+			fmt.Fprintf(os.Stderr, "      %s\n", l)
+		}
+	}
+	saved := sc.obsRate
+	sc.obsRate = 0 // a random observer delivery could hand the deciding witness to the others
+	h.ring(sc, rest, nil, rest, r+6, 5*5*len(rest)+10)
+	for _, c := range d {
+		h.deliver(c, h.headEid(rest[len(rest)-1])) // the silent validator keeps listening
+	}
+	sc.obsRate = saved
+	if ok, _ := h.fameOf(rest[0], r, x); ok {
+		h.actions["coin-template-decided-by-the-rest"]++
+	}
 }
 
 // lateWitness: validator z stays silent for a few rounds while the others move on (z's node still
